@@ -694,6 +694,101 @@ func (m *bsMachine) ruleCancelGet(t *rapid.T) {
 	m.settle()
 }
 
+// ruleCancelRetry: a Get blocks at the end of the buffer, its context is cancelled, and the same goroutine retries at
+// once with a live context (no quiescent point, not even a goroutine switch, in between); then a value is put. The
+// first Get returns its context's error and consumes nothing, the retry is a Get like any other: it returns the value.
+func (m *bsMachine) ruleCancelRetry(t *rapid.T) {
+	c := m.pickCons("retryCons", func(c *bsCons) bool {
+		return !c.busy() && c.open && c.pos() >= len(m.G) && c.pos() >= m.base
+	})
+	if c == nil || m.closed || m.cleaner == "fixed" || m.cleaner == "script" {
+		t.Skip("no idle consumer at the end of the buffer")
+	}
+	for _, o := range m.cons {
+		if o.getOp != nil {
+			t.Skip("a get is pending")
+		}
+	}
+	cc := c.c
+	ctx1, cancel1 := context.WithCancel(context.Background())
+	ctx2, cancel2 := context.WithCancel(context.Background())
+	defer cancel2()
+	type both struct{ first, second bsGetRes }
+	op := vkit.Launch("get+retry", func() any {
+		v1, e1 := cc.Get(ctx1)
+		v2, e2 := cc.Get(ctx2)
+		return both{bsGetRes{v1, e1}, bsGetRes{v2, e2}}
+	})
+	synctest.Wait() // the first Get is parked
+	if op.Finished() {
+		m.fail("C01/get-invented", "two Gets in a row on c%d returned %v although nothing is available", c.id, op.Res)
+	}
+	cancel1()
+	yields := rapid.SampledFrom([]int{0, 5, 50, 300}).Draw(t, "retryYields")
+	for i := 0; i < yields; i++ {
+		runtime.Gosched()
+	}
+	k := rapid.IntRange(1, 2).Draw(t, "retryPutK")
+	vals := m.nextTokens(k)
+	args := make([]any, k)
+	for i, v := range vals {
+		args[i] = bsPayload(v)
+	}
+	if err := m.b.Put(context.Background(), args...); err != nil {
+		m.fail("C01/put-error", "Put failed: %v", err)
+	}
+	m.G = append(m.G, vals...)
+	m.changed()
+	m.wokeBlockedGet = true
+	m.tr("cancelRetry(c%d,put%v)", c.id, vals)
+	synctest.Wait()
+	pendingRetry := false
+	if !op.Finished() {
+		// legitimate only if the Put overtook the cancellation (the first Get took the value) and nothing is left
+		// for the retry: end the retry and look
+		pendingRetry = true
+		cancel2()
+		synctest.Wait()
+		if !op.Finished() {
+			m.fail("C05/get-lost-wakeup", "Get(c%d), retried after its first attempt was cancelled, is still blocked at quiescence although its own context was cancelled too", c.id)
+		}
+	}
+	if op.Panic != nil {
+		m.fail("C01+C02+C03+C05+C12/get-panic", "Get(c%d) panicked: %v", c.id, op.Panic)
+	}
+	r := op.Res.(both)
+	want := bsPayload(m.G[c.pos()])
+	switch {
+	case r.first.err == nil:
+		if r.first.v != want {
+			m.fail("C01+C03/get-value", "Get(c%d) returned %v, expected %v", c.id, r.first.v, want)
+		}
+		c.delta++ // the Put overtook the cancellation
+		switch {
+		case k >= 2 && !pendingRetry && r.second.err == nil && r.second.v == bsPayload(m.G[c.pos()]):
+			c.delta++
+			m.tr("=both")
+		case k == 1 && pendingRetry && r.second.err != nil:
+			m.tr("=first only")
+		case pendingRetry:
+			m.fail("C05/get-lost-wakeup", "the retried Get(c%d) stayed blocked although %d values were put and only one was taken", c.id, k)
+		default:
+			m.fail("C03+C05/get-spurious-error", "the first Get(c%d) took the value; the retry (live context, %d value(s) put) returned (%v,%v)", c.id, k, r.second.v, r.second.err)
+		}
+	case pendingRetry:
+		m.fail("C05/get-lost-wakeup", "Get(c%d) was cancelled (%v) and retried at once with a live context; the retry stayed blocked at quiescence although a value was put", c.id, r.first.err)
+	case r.second.err != nil:
+		m.fail("C03+C05/get-spurious-error", "Get(c%d) was cancelled (%v) and retried at once with a live context; the retry returned the error %v although a value was put and nothing is closed", c.id, r.first.err, r.second.err)
+	case r.second.v != want:
+		m.fail("C05+C01/value-after-failed-get", "Get(c%d) was cancelled and retried: the retry returned %v, the value put is %v (a failed Get consumes nothing)", c.id, r.second.v, want)
+	default:
+		c.delta++
+		m.tr("=retry got it")
+	}
+	m.simple = false // a compound step: the cleaner may have looked at the state before the Put
+	m.settle()
+}
+
 // ruleRaceWake makes a value available AND cancels the blocked Get's context within one step (no quiescent
 // point in between, drawn order). Either outcome is allowed — the value, or the context's error — but a Get that
 // fails must not have consumed anything: the model adopts what was observed and the following reads verify it.
@@ -1474,6 +1569,7 @@ func bsRun(t *rapid.T, st *vkit.Stats, prof string) {
 	add("cancelGet", w["cancelGet"], m.ruleCancelGet)
 	add("raceWake", w["raceWake"], m.ruleRaceWake)
 	add("diffDuringGet", w["raceWake"], m.ruleDiffDuringGet)
+	add("cancelRetry", w["raceWake"], m.ruleCancelRetry)
 	add("commit", w["commit"], m.ruleCommit)
 	add("rollback", w["rollback"], m.ruleRollback)
 	add("closeConsumer", w["closeConsumer"], m.ruleCloseConsumer)
